@@ -313,3 +313,226 @@ Proof.
   rewrite (nth_indep _ [] ((fun j => [(k, lin_value a b n j)]) 0)) by (rewrite map_length, seq_length; exact Hi).
   rewrite (map_nth (fun j => [(k, lin_value a b n j)])). rewrite seq_nth by exact Hi. reflexivity.
 Qed.
+
+(* ---- D3: slices ------------------------------------------------------------------------------------------ *)
+Lemma set_nth_length {A} (l : list A) j x : length (set_nth l j x) = length l.
+Proof. revert j; induction l as [|y r IH]; intros [|j]; simpl; try reflexivity. rewrite IH. reflexivity. Qed.
+
+Lemma set_nth_nth {A} (l : list A) j x d j' : j < length l ->
+  nth j' (set_nth l j x) d = if Nat.eqb j' j then x else nth j' l d.
+Proof.
+  revert j j'; induction l as [|y r IH]; intros j j' H; simpl in H; [lia|].
+  destruct j as [|j], j' as [|j']; simpl; try reflexivity.
+  apply IH. lia.
+Qed.
+
+Lemma lookup_inds (idxs : list nat) : forall s i,
+  match lookup (combine idxs (seq s (length idxs))) i with
+  | Some j => exists p, j = s + p /\ p < length idxs /\ nth p idxs 0 = i
+  | None => ~ In i idxs
+  end.
+Proof.
+  induction idxs as [|x r IH]; intros s i; simpl; [tauto|].
+  destruct (Nat.eqb_spec x i) as [E|E].
+  - exists 0. repeat split; [lia|lia|exact E].
+  - specialize (IH (S s) i). destruct (lookup (combine r (seq (S s) (length r))) i) as [j|].
+    + destruct IH as [p [H1 [H2 H3]]]. exists (S p). repeat split; [lia|lia|exact H3].
+    + intros [H|H]; [exact (E H)|exact (IH H)].
+Qed.
+
+Lemma walk_inv (idxs : list nat) (f : nat -> assign) : NoDup idxs -> forall rest k res,
+  (forall p, p < length rest -> nth p rest [] = f (k + p)) ->
+  length res = length idxs ->
+  (forall j, j < length idxs -> nth j res [] = if nth j idxs 0 <? k then f (nth j idxs 0) else []) ->
+  length (fold_left (walk_step (inds_map idxs)) (combine (seq k (length rest)) rest) res) = length idxs /\
+  forall j, j < length idxs ->
+    nth j (fold_left (walk_step (inds_map idxs)) (combine (seq k (length rest)) rest) res) [] =
+    if nth j idxs 0 <? k + length rest then f (nth j idxs 0) else [].
+Proof.
+  intros Hnd. induction rest as [|x rest IH]; intros k res Hf Hlen Hinv.
+  - simpl. split; [exact Hlen|]. intros j Hj. rewrite Nat.add_0_r. apply Hinv. exact Hj.
+  - simpl length. simpl seq. simpl combine. simpl fold_left.
+    replace (k + S (length rest)) with (S k + length rest) by lia.
+    assert (Hx : x = f k). { specialize (Hf 0 ltac:(simpl; lia)). simpl in Hf. rewrite Nat.add_0_r in Hf. exact Hf. }
+    apply IH.
+    + intros p Hp. specialize (Hf (S p) ltac:(simpl; lia)). simpl in Hf. rewrite Hf. f_equal. lia.
+    + unfold walk_step. simpl fst. destruct (lookup (inds_map idxs) k); [rewrite set_nth_length|]; exact Hlen.
+    + intros j Hj. unfold walk_step. simpl fst. simpl snd.
+      pose proof (lookup_inds idxs 0 k) as Hl. fold (inds_map idxs) in Hl.
+      destruct (lookup (inds_map idxs) k) as [j0|].
+      * destruct Hl as [p [H1 [H2 H3]]]. simpl in H1. subst j0.
+        rewrite set_nth_nth by (rewrite Hlen; exact H2).
+        destruct (Nat.eqb_spec j p) as [E|E].
+        -- subst j. rewrite H3. rewrite (proj2 (Nat.ltb_lt k (S k))) by lia. exact Hx.
+        -- rewrite Hinv by exact Hj.
+           assert (Hne : nth j idxs 0 <> k).
+           { intros Heq. apply E. apply (proj1 (NoDup_nth idxs 0) Hnd); [exact Hj|exact H2|]. rewrite H3. exact Heq. }
+           destruct (Nat.ltb_spec (nth j idxs 0) k), (Nat.ltb_spec (nth j idxs 0) (S k)); try reflexivity; lia.
+      * rewrite Hinv by exact Hj.
+        assert (Hne : nth j idxs 0 <> k). { intros Heq. apply Hl. rewrite <- Heq. apply nth_In. exact Hj. }
+        destruct (Nat.ltb_spec (nth j idxs 0) k), (Nat.ltb_spec (nth j idxs 0) (S k)); try reflexivity; lia.
+Qed.
+
+Lemma pick_nth {A} (d : A) (l : list A) (idxs : list nat) j : j < length idxs ->
+  nth j (pick d l idxs) d = nth (nth j idxs 0) l d.
+Proof.
+  revert j; induction idxs as [|x r IH]; intros [|j] H; simpl in *; try lia; [reflexivity|]. apply IH. lia.
+Qed.
+
+(* the dictionary walk of Sweep.__getitem__ picks exactly the listed positions, in slice order *)
+Lemma slice_walk_pick (idxs : list nat) (items : list assign) :
+  NoDup idxs -> Forall (fun i => i < length items) idxs ->
+  slice_walk (inds_map idxs) items = pick [] items idxs.
+Proof.
+  intros Hnd Hlt. unfold slice_walk.
+  assert (Hm : length (inds_map idxs) = length idxs).
+  { unfold inds_map. rewrite combine_length, seq_length. lia. }
+  rewrite Hm.
+  destruct (walk_inv idxs (fun i => nth i items []) Hnd items 0 (repeat [] (length idxs))) as [Hlen Hnth].
+  - intros p _. reflexivity.
+  - apply repeat_length.
+  - intros j Hj. simpl. apply nth_repeat_lt. exact Hj.
+  - apply (nth_ext _ _ [] []).
+    + unfold pick. rewrite map_length. exact Hlen.
+    + intros j Hj0. assert (Hj : j < length idxs) by (rewrite <- Hlen; exact Hj0). rewrite Hnth by exact Hj. simpl.
+      assert (Hb : nth j idxs 0 < length items). { rewrite Forall_forall in Hlt. apply Hlt. apply nth_In. exact Hj. }
+      match goal with |- context [?a <? ?b] => destruct (Nat.ltb_spec a b) as [_|Hc] end;
+        [|exfalso; exact (Nat.lt_irrefl _ (Nat.lt_le_trans _ _ _ Hb Hc))].
+      rewrite pick_nth by exact Hj. reflexivity.
+Qed.
+
+Lemma NoDup_map_seq {B} (h : nat -> B) (c : nat) :
+  (forall i j, i < c -> j < c -> h i = h j -> i = j) -> NoDup (map h (seq 0 c)).
+Proof.
+  intros Hinj.
+  assert (G : forall s n, s + n <= c -> NoDup (map h (seq s n))).
+  { intros s n; revert s; induction n as [|n IH]; intros s Hs; simpl; constructor.
+    - intros Hin. apply in_map_iff in Hin. destruct Hin as [y [Hy Hin]]. apply in_seq in Hin.
+      assert (y = s) by (apply Hinj; [lia|lia|exact Hy]). lia.
+    - apply IH. lia. }
+  apply G. lia.
+Qed.
+
+Lemma range_count_bound_pos start stop step i : (0 < step)%Z ->
+  (0 <= i < range_count start stop step)%Z -> (start <= start + i * step < stop)%Z.
+Proof.
+  intros Hs Hi. unfold range_count in Hi. rewrite (proj2 (Z.ltb_lt 0 step) Hs) in Hi.
+  destruct (start <? stop)%Z eqn:E; [|lia]. apply Z.ltb_lt in E.
+  assert (Hq : (i <= (stop - start - 1) / step)%Z) by lia.
+  assert (Hm : (step * ((stop - start - 1) / step) <= stop - start - 1)%Z) by (apply Z.mul_div_le; lia).
+  nia.
+Qed.
+
+Lemma range_count_bound_neg start stop step i : (step < 0)%Z ->
+  (0 <= i < range_count start stop step)%Z -> (stop < start + i * step <= start)%Z.
+Proof.
+  intros Hs Hi. unfold range_count in Hi.
+  destruct (0 <? step)%Z eqn:E0; [apply Z.ltb_lt in E0; lia|].
+  destruct (stop <? start)%Z eqn:E; [|lia]. apply Z.ltb_lt in E.
+  assert (Hq : (i <= (start - stop - 1) / (- step))%Z) by lia.
+  assert (Hm : ((- step) * ((start - stop - 1) / (- step)) <= start - stop - 1)%Z) by (apply Z.mul_div_le; lia).
+  nia.
+Qed.
+
+Lemma slice_bounds_range n sl start stop step : (0 <= n)%Z ->
+  slice_bounds n sl = Some (start, stop, step) ->
+  step <> 0%Z /\ ((0 < step)%Z -> (0 <= start)%Z /\ (stop <= n)%Z) /\ ((step < 0)%Z -> (start <= n - 1)%Z /\ (-1 <= stop)%Z).
+Proof.
+  intros Hn. unfold slice_bounds.
+  set (st := match sl_step sl with Some k => k | None => 1%Z end).
+  destruct (st =? 0)%Z eqn:E0; [discriminate|]. apply Z.eqb_neq in E0.
+  intros H. injection H as H1 H2 H3. subst step. split; [exact E0|].
+  destruct (st <? 0)%Z eqn:En; [apply Z.ltb_lt in En|apply Z.ltb_ge in En].
+  - split; [lia|]. intros _. subst start stop.
+    destruct (sl_start sl) as [v|], (sl_stop sl) as [w|];
+      repeat match goal with |- context [(?a <? 0)%Z] => destruct (a <? 0)%Z eqn:? end; lia.
+  - split; [|lia]. intros _. subst start stop.
+    destruct (sl_start sl) as [v|], (sl_stop sl) as [w|];
+      repeat match goal with |- context [(?a <? 0)%Z] => destruct (a <? 0)%Z eqn:? end; lia.
+Qed.
+
+(* range(n)[slice] lists distinct positions inside the sweep *)
+Lemma slice_indices_ok n sl idxs : slice_indices n sl = Some idxs ->
+  NoDup idxs /\ Forall (fun i => i < n) idxs.
+Proof.
+  unfold slice_indices. destruct (slice_bounds (Z.of_nat n) sl) as [[[start stop] step]|] eqn:Eb; [|discriminate].
+  intros H. injection H as <-.
+  destruct (slice_bounds_range _ _ _ _ _ (Nat2Z.is_nonneg n) Eb) as [Hnz [Hpos Hneg]].
+  unfold range_list. rewrite map_map.
+  assert (Hin : forall i, i < Z.to_nat (range_count start stop step) ->
+                 (0 <= start + Z.of_nat i * step < Z.of_nat n)%Z).
+  { intros i Hi. destruct (Z.lt_trichotomy step 0) as [Hs|[Hs|Hs]]; [|contradiction|].
+    - pose proof (range_count_bound_neg start stop step (Z.of_nat i) Hs ltac:(lia)). specialize (Hneg Hs). lia.
+    - pose proof (range_count_bound_pos start stop step (Z.of_nat i) Hs ltac:(lia)). specialize (Hpos Hs). lia. }
+  split.
+  - apply NoDup_map_seq. intros i j Hi Hj Heq.
+    pose proof (Hin i Hi). pose proof (Hin j Hj).
+    assert (E : (start + Z.of_nat i * step = start + Z.of_nat j * step)%Z) by lia.
+    assert (E2 : ((Z.of_nat i - Z.of_nat j) * step = 0)%Z) by lia.
+    apply Z.mul_eq_0 in E2. lia.
+  - apply Forall_forall. intros x Hx. apply in_map_iff in Hx. destruct Hx as [i [<- Hi]].
+    apply in_seq in Hi. pose proof (Hin i ltac:(lia)). lia.
+Qed.
+
+Theorem sweep_slice : forall s sl s',
+  getslice s sl = Some s' ->
+  exists idxs, slice_indices (len s) sl = Some idxs /\
+               s' = ListSweep (pick [] (iter s) idxs) /\
+               iter s' = pick [] (iter s) idxs /\ len s' = length idxs.
+Proof.
+  intros s sl s'. unfold getslice. destruct (slice_indices (len s) sl) as [idxs|] eqn:E; [|discriminate].
+  intros H. injection H as <-. exists idxs.
+  destruct (slice_indices_ok _ _ _ E) as [Hnd Hlt].
+  rewrite slice_walk_pick; [|exact Hnd|rewrite sweep_len_iter; exact Hlt].
+  repeat split. simpl. unfold pick. apply map_length.
+Qed.
+
+Theorem sweep_slice_zero_step : forall s sl, getslice s sl = None <-> sl_step sl = Some 0%Z.
+Proof.
+  intros s sl. unfold getslice, slice_indices, slice_bounds.
+  destruct (sl_step sl) as [k|]; simpl.
+  - destruct (Z.eqb_spec k 0) as [->|E]; split; try reflexivity; try discriminate. intros H; injection H; contradiction.
+  - split; discriminate.
+Qed.
+
+(* the transcription of slice.indices/range agrees with list slicing on the familiar cases *)
+Theorem slice_indices_prefix : forall n a b, a <= b <= n ->
+  slice_indices n (mkSlice (Some (Z.of_nat a)) (Some (Z.of_nat b)) None) = Some (seq a (b - a)).
+Proof.
+  intros n a b H. unfold slice_indices, slice_bounds. simpl.
+  destruct (Z.of_nat a <? 0)%Z eqn:Ea; [apply Z.ltb_lt in Ea; lia|].
+  destruct (Z.of_nat b <? 0)%Z eqn:Eb; [apply Z.ltb_lt in Eb; lia|].
+  rewrite !Z.min_l by lia. f_equal. unfold range_list, range_count. change (0 <? 1)%Z with true. cbv iota.
+  assert (Hc : Z.to_nat (if (Z.of_nat a <? Z.of_nat b)%Z then (Z.of_nat b - Z.of_nat a - 1) / 1 + 1 else 0)%Z = b - a).
+  { destruct (Z.of_nat a <? Z.of_nat b)%Z eqn:E; [apply Z.ltb_lt in E|apply Z.ltb_ge in E]; [rewrite Z.div_1_r|]; lia. }
+  rewrite Hc. rewrite map_map.
+  assert (G : forall c s, map (fun i => Z.to_nat (Z.of_nat a + Z.of_nat i * 1)) (seq s c) = seq (a + s) c).
+  { induction c as [|c IH]; intros s; simpl; [reflexivity|]. rewrite IH. f_equal; [lia|]. f_equal. lia. }
+  rewrite G. f_equal. lia.
+Qed.
+
+Theorem slice_indices_full : forall n, slice_indices n (mkSlice None None None) = Some (seq 0 n).
+Proof.
+  intros n. unfold slice_indices, slice_bounds. simpl. f_equal. unfold range_list, range_count. change (0 <? 1)%Z with true. cbv iota.
+  assert (Hc : Z.to_nat (if (0 <? Z.of_nat n)%Z then (Z.of_nat n - 0 - 1) / 1 + 1 else 0)%Z = n).
+  { destruct (0 <? Z.of_nat n)%Z eqn:E; [apply Z.ltb_lt in E|apply Z.ltb_ge in E]; [rewrite Z.div_1_r|]; lia. }
+  rewrite Hc, map_map.
+  assert (G : forall c s, map (fun i => Z.to_nat (0 + Z.of_nat i * 1)) (seq s c) = seq s c).
+  { induction c as [|c IH]; intros s; simpl; [reflexivity|]. rewrite IH. f_equal. lia. }
+  apply G.
+Qed.
+
+Lemma pick_seq_all {A} (d : A) (l : list A) : pick d l (seq 0 (length l)) = l.
+Proof.
+  apply (nth_ext _ _ d d); [unfold pick; rewrite map_length, seq_length; reflexivity|].
+  intros j Hj. unfold pick in Hj. rewrite map_length, seq_length in Hj.
+  rewrite pick_nth by (rewrite seq_length; exact Hj). rewrite seq_nth by exact Hj. reflexivity.
+Qed.
+
+Theorem sweep_slice_all : forall s, getslice s (mkSlice None None None) = Some (ListSweep (iter s)).
+Proof.
+  intros s. destruct (getslice s (mkSlice None None None)) as [s'|] eqn:E.
+  - destruct (sweep_slice _ _ _ E) as [idxs [H1 [H2 _]]]. rewrite slice_indices_full in H1. injection H1 as <-.
+    rewrite H2. rewrite <- sweep_len_iter. rewrite pick_seq_all. reflexivity.
+  - apply sweep_slice_zero_step in E. discriminate.
+Qed.
